@@ -44,6 +44,10 @@ def run(ctx):
             continue
         ctx.evaluations += 1
         na = info.get("n_accept", 0)
+        if desc.get("library_by_count"):
+            ctx.count("sessions_with_library_requested_by_count")
+        if desc.get("lib_units"):
+            ctx.count("sessions_with_library_in_other_units")
         cls = (pb.profile, inj_kind, "mem" if opts["in_memory"] else "cache", "file" if as_file else "obj",
                bool(opts.get("randomize_prior_order")), trunc, "n_prior" in "".join(opts.keys()), opts["n_linear_samples"],
                "N1" if pb.N == 1 else "N<=30" if pb.N <= 30 else "N>30", "a1" if na == 1 else "a2-5" if na <= 5 else "a>5")
